@@ -12,6 +12,7 @@
 package c11
 
 import (
+	"encoding/json"
 	"fmt"
 	"math/rand"
 	"sort"
@@ -73,10 +74,10 @@ func coord(r *rand.Rand) float64 { return float64(r.Intn(200001)-100000) / 10000
 
 func ff(v float64) string { return strconv.FormatFloat(v, 'f', -1, 64) }
 
-func genDataset(r *rand.Rand, key string, n int) *dataset {
+func genDataset(r *rand.Rand, key string, n int, forceStr bool) *dataset {
 	d := &dataset{key: key, n: n}
 	seen := map[string]bool{}
-	allStr := r.Intn(12) == 0
+	allStr := r.Intn(12) == 0 || forceStr // forced for one large collection: value searches page through more than 256 strings too
 	allGeo := r.Intn(12) == 0
 	for len(d.ids) < n {
 		id := idHeads[r.Intn(len(idHeads))]
@@ -398,7 +399,66 @@ type worker struct {
 	ctx  *core.Ctx
 	s    *srv.Server
 	c    *respc.Conn
+	cj   *respc.Conn // the same server in JSON output mode
 	dead bool
+}
+
+// jsonPaging follows the cursor of the JSON form of a reply (the footer is
+// written by other code than the RESP one): the concatenated pages must be the
+// ids of the unlimited RESP reply.
+func (w *worker) jsonPaging(d *dataset, q *query, ref []item, limit int) {
+	if w.cj == nil {
+		c, err := respc.Dial(w.s.Addr(), 5*time.Second)
+		if err != nil {
+			return
+		}
+		c.Timeout = 60 * time.Second
+		if _, err := c.Do("OUTPUT", "json"); err != nil {
+			c.Close()
+			return
+		}
+		w.cj = c
+	}
+	var got []string
+	cursor := uint64(0)
+	var trace []string
+	for pages := 0; pages <= len(ref)+3; pages++ {
+		cmd := q.build(d.key, cursor, limit, "IDS")
+		txt, err := w.cj.DoJSON(cmd...)
+		if err != nil {
+			w.infra("json page query", err)
+			return
+		}
+		var doc struct {
+			OK     bool     `json:"ok"`
+			IDs    []string `json:"ids"`
+			Cursor uint64   `json:"cursor"`
+		}
+		if json.Unmarshal([]byte(txt), &doc) != nil || !doc.OK {
+			w.ctx.Count("json_page_unparsable", 1)
+			return
+		}
+		w.ctx.Eval(1)
+		got = append(got, doc.IDs...)
+		if len(trace) < 40 {
+			trace = append(trace, fmt.Sprintf("cursor %d -> %d ids, cursor %d", cursor, len(doc.IDs), doc.Cursor))
+		}
+		cursor = doc.Cursor
+		if cursor == 0 {
+			break
+		}
+	}
+	w.ctx.Count("json_paged_queries", 1)
+	want := idsOf(ref)
+	same := len(got) == len(want)
+	for i := 0; same && i < len(got); i++ {
+		same = got[i] == want[i]
+	}
+	if !same {
+		w.violation("json-paging:"+strings.ToLower(q.cmd)+":"+q.fkinds,
+			fmt.Sprintf("%q followed through the cursors of its JSON replies (LIMIT %d) yields %d ids, the unlimited reply lists %d; pages: %v", q.build(d.key, 0, limit, "IDS"), limit, len(got), len(want), trace),
+			map[string]any{"dataset": d.sets, "query": q.build(d.key, 0, limit, "IDS"), "pages": trace})
+	}
 }
 
 func (w *worker) infra(what string, err error) {
@@ -543,6 +603,9 @@ func (w *worker) pageQuery(d *dataset, q *query, output string, r *rand.Rand, al
 		return
 	}
 	m := len(ref)
+	if output == "IDS" && m >= 2 && len(q.opts) == 0 && r.Intn(6) == 0 {
+		w.jsonPaging(d, q, ref, 1+r.Intn(m))
+	}
 	ctx.Count("queries:"+strings.ToLower(q.cmd), 1)
 	ctx.Count("queries_filter:"+q.fkinds, 1)
 	ctx.Count("queries_output:"+strings.ToLower(output), 1)
@@ -733,7 +796,7 @@ func (w *worker) dataset(idx int, thorough bool) {
 			perShape = 2
 		}
 	}
-	d := genDataset(r, "d"+strconv.Itoa(idx), n)
+	d := genDataset(r, "d"+strconv.Itoa(idx), n, n >= 300 && (idx%60 == 59 || idx%48 == 47))
 	for _, c := range d.sets {
 		w.c.Send(c...)
 	}
